@@ -19,7 +19,10 @@ A subset of W/L/T/RT is also run through real files opened with newline="" (Pyth
 import csv, io, os, random, subprocess, sys, tempfile
 
 HERE = os.path.dirname(os.path.abspath(__file__))
-OUT = os.path.join(HERE, "validate_out")
+VERIF = os.path.normpath(os.path.join(HERE, "..", ".."))
+SCRATCH = os.path.join(VERIF, "_build", "textlayer", "csv")
+os.makedirs(SCRATCH, exist_ok=True)
+OUT = SCRATCH
 os.makedirs(OUT, exist_ok=True)
 rnd = random.Random(20261001)
 
@@ -286,7 +289,7 @@ files.append(path)
 
 ok = True
 for path in files:
-    p = subprocess.run(["timeout", "900", "coqc", "-Q", os.path.join(HERE, "coq"), "Curies", "-Q", OUT, "CsvVal", path],
+    p = subprocess.run(["timeout", "900", "coqc", "-Q", os.path.join(VERIF, "coq"), "Curies", "-Q", OUT, "CsvVal", path],
                        capture_output=True, text=True)
     status = "agree" if p.returncode == 0 else "DISAGREE / error"
     print("%-18s %s" % (os.path.basename(path), status))
